@@ -509,5 +509,21 @@ def run(ctx):
                             '%s reads the file into `%s` but hands `%s` to preprocess_str' % (cname, v, sq(pcalls[0]['args'][0])))
                 elif len(pcalls) != 1:
                     w6.undecided('sv-parser-pp:%s:reader-user' % cname, cw, '%s: %d calls of preprocess_str' % (cname, len(pcalls)))
+    # the same for the wrappers above the reading function (the public `preprocess`): they produce no result of their own either
+    readers_ = {name for name, (fl, fn) in ppf.items() if any(n.get('k') == 'mcall' and n['m'] == 'read_to_string' for n in sx.walk(fn.get('body')))}
+    loop_names_ = {name for name, (fl, fn) in ppf.items() if any(n.get('k') == 'path' and n['p'].split('::')[-1] == 'pp_parser' for n in sx.walk(fn.get('body')))}
+    for name, (fl, fn) in sorted(ppf.items()):
+        if name in readers_ or name in loop_names_ or not fn.get('body'):
+            continue
+        rc_ = [n for n in sx.walk(fn['body']) if sx.is_call(n) and n['f']['p'].split('::')[-1] in readers_]
+        if not rc_:
+            continue
+        w6.inst('wrapper:%s' % name, {'fn': name, 'calls': sorted({n['f']['p'] for n in rc_})})
+        from vlib import paths as _paths
+        own_ = [e_ for e_ in _paths.exits_avoiding(fn['body'], lambda n_: any(n_ is c_ for c_ in rc_)) if sx.is_call(e_, 'Ok')]
+        if own_:
+            w6.fail('sv-parser-pp:%s:result-not-from-string-entry' % name, 'sv-parser-pp/%s:%s' % (fl, own_[0].get('l') or fn['l']),
+                    '%s can return `%s` without going through %s: on that path the file entry builds its own result (e.g. a define table without the predefined '
+                    'constants that the string entry always seeds), so the two entries disagree' % (name, sq(own_[0])[:50], sorted({n['f']['p'] for n in rc_})[0]))
     w6.floor('file_reading_functions', nread, 1)
     return [w1, w2, w3, w4, w5, w6]
